@@ -5,7 +5,7 @@ import filter_functions as ff
 from filter_functions import numeric
 
 from .. import gens
-from ..common import arr2bits, bits2arr, driver
+from ..common import arr2bits, bits2arr, corr_script, driver
 
 THEOREMS = ['geom_series_solve', 'fallback_sum', 'periodic_eq_repetition_sum',
             'geomSum_toMatrix', 'accumulate_replicate',
@@ -14,6 +14,27 @@ PINS = ['pinConcatenatePeriodic', 'C04_periodic_source_shape']
 GEN_SITES = ['const:numeric.calculate_control_matrix_periodic',
              'einsum:numeric_calculate_control_matrix_from_atomic_0']
 COMPONENTS = ['cm_periodic']
+# module C04Tile: Hamiltonian, times, propagators, total (Liouville) propagator of tiled / appended pulses
+THEOREMS = THEOREMS + [
+    'FFVerif.C04Tile.hamiltonian_congr_segment', 'FFVerif.C04Tile.hamiltonian_append', 'FFVerif.C04Tile.hamiltonian_tile',
+    'FFVerif.C04Tile.hamiltonian_concat_segment', 'FFVerif.C04Tile.propagators_append', 'FFVerif.C04Tile.total_propagator_append',
+    'FFVerif.C04Tile.concatTotalPropagator_pair', 'FFVerif.C04Tile.propagators_append_data', 'FFVerif.C04Tile.propagators_concat',
+    'FFVerif.C04Tile.total_propagator_concat', 'FFVerif.C04Tile.concatTotalPropagator_eq_from_scratch', 'FFVerif.C04Tile.cumL_eq_liouville_prodTotal',
+    'FFVerif.C04Tile.concatL_eq_liouville_from_scratch', 'FFVerif.C04Tile.times_concat', 'FFVerif.C04Tile.tau_concat',
+    'FFVerif.C04Tile.times_tile', 'FFVerif.C04Tile.tau_tileVec', 'FFVerif.C04Tile.propagators_tile',
+    'FFVerif.C04Tile.propagators_tile_boundary', 'FFVerif.C04Tile.total_propagator_tile', 'FFVerif.C04Tile.total_propagator_tile_of_identity',
+    'FFVerif.C04Tile.liouville_matrixPower', 'FFVerif.C04Tile.liouville_matrixPower_castReal', 'FFVerif.C04Tile.total_liouville_tile',
+    'FFVerif.C04Tile.periodicS_of_identity', 'FFVerif.C04Tile.identity_forces_fallback', 'FFVerif.C04Tile.periodicT_identity',
+    'FFVerif.C04Tile.periodicApply_of_identity', 'FFVerif.C04Tile.concatPeriodicDef_eq_from_scratch', 'FFVerif.C04Tile.isDiag_ofDiag',
+    'FFVerif.C04Tile.isDiag_empty', 'FFVerif.C04Tile.isDiag_concat2', 'FFVerif.C04Tile.isDiag_concatSeq',
+    'FFVerif.C04Tile.concatSeq_Qtot', 'FFVerif.C04Tile.concatTotalPropagator_eq_concatSeq', 'FFVerif.C04Tile.concatSeq_tau',
+    'FFVerif.C04Tile.concat2_segments', 'FFVerif.C04Tile.concatSeq_replicate', 'FFVerif.C04Tile.isDiag_iff_eq_ofDiag',
+    'FFVerif.C04Tile.ofDiag_congr', 'FFVerif.C04Tile.concat2_eq_ofDiag', 'FFVerif.C04Tile.concatSeq_replicate_eq_ofDiag',
+    'FFVerif.C04Tile.isEigh_tileVec', 'FFVerif.C04Tile.periodic_cm_eq_tiled_from_scratch', 'FFVerif.C04Tile.concat_cm_eq_diag_from_scratch',
+    'FFVerif.TileAux.matrixPower_toMatrix', 'FFVerif.TileAux.matrixPower_eq_pow', 'FFVerif.TileAux.mdot_toMatrix',
+    'FFVerif.TileAux.concatTau_eq_sum', 'FFVerif.TileAux.times_block', 'FFVerif.TileAux.propagators_block',
+    'FFVerif.TileAux.liou_pow']
+LEAN_MODULES = ['FFVerif.Props.C04', 'FFVerif.Props.C04Tile']
 RULES = ['correspondence: numeric.calculate_control_matrix_periodic vs the model\'s geometric '
          'series evaluator (B · Σ_{g<G} (e^{iωT} L)^g) on pulses with cached control matrix, '
          'G in {1,2,3,5,12,30}, frequencies at and around the singular points of 1 - e^{iωT}L '
@@ -86,6 +107,10 @@ def tiled_desc(desc, G):
 
 
 def correspondence(ctx):
+    # what concatenate_periodic / concatenate store for the definition and propagator part vs the
+    # model Tile and vs the from-scratch pulse (G = 1..7; identity, degenerate and zero pulses)
+    corr_script(ctx, 'corr_c04tile', ['periodic[random]', 'periodic[identity]', 'periodic[identity_multi]',
+                                      'periodic[degenerate]', 'periodic[zero]', 'concatenate'])
     rng = ctx.rng('corr')
     n = 12 if ctx.tier == 'quick' else 150
     lines, refs = [], []
